@@ -148,6 +148,10 @@ def perturb(path, outpath, kind, seed):
                     w[2 * n] = min(0.999, max(0.001, w[2 * n] + 0.3 * (r.random() - 0.5)))
                 return w
             edit(rng(pos["STREAM_PDF[%s]" % s]), rng(pos["STREAM_TREE[%s]" % s]), n * 2 + msd, f)
+            # the global-variance Gaussians differ between copies as well (means +-25 %), so that GV weights are observable
+            if kind == "all" and st.get("USE_GV[%s]" % s) == "1":
+                edit(rng(pos["GV_PDF[%s]" % s]), rng(pos["GV_TREE[%s]" % s]), vlen * 2,
+                     lambda w, vlen=vlen: [x * (1.0 + 0.5 * (r.random() - 0.5)) for x in w[:vlen]] + list(w[vlen:]))
     open(outpath, "wb").write(b[:off] + bytes(data))
 
 
